@@ -20,7 +20,7 @@ ASSUMPTIONS = ['counts and HL/LX numbers that Python int() accepts but are not c
                'every ISA generated has 16 elements (a shorter ISA is a documented refusal, C07)']
 REQUIRED_COUNTERS = ['proper', 'improper', 'exp:isa:025', 'exp:gs:6', 'exp:st:23', 'exp:st:3', 'exp:st:4', 'exp:gs:4', 'exp:gs:5', 'exp:isa:001',
                      'exp:isa:021', 'exp:eof:st:2', 'exp:eof:gs:3', 'exp:eof:isa:023', 'exp:seg:HL1', 'exp:seg:HL2', 'exp:seg:LX',
-                     'proper-clean', 'segments-fed', 'envelope-soups', 'headers-without-control-number', 'sets-with-unclosed-LS']
+                     'proper-clean', 'segments-fed', 'envelope-soups', 'headers-without-control-number', 'sets-with-unclosed-LS', 'interchanges-of-other-parties']
 MIN_CASES = {'quick': 15000, 'thorough': 2000000}
 
 CTL = {'isa': ['000000001', '000000002', '000000003'], 'gs': ['1', '2', '3'], 'st': ['0001', '0002', '0003']}
@@ -46,7 +46,12 @@ def gen_proper(rng):
     for _ in range(rng.randint(1, 3)):
         isa = rng.choice(CTL['isa'])
         icvn = rng.choice(['00401', '00501'])
-        segs.append(('ISA', RE.isa_elements(isa, icvn)))
+        # the parties vary from interchange to interchange (files of several submitters concatenated): a control number seen before is a
+        # duplicate whoever sends it
+        party = rng.choice([('SENDER', 'RECEIVER'), ('SENDER', 'RECEIVER'), ('OTHERSENDER', 'RECEIVER'), ('SENDER', 'OTHERRCV')])
+        if party[0] != 'SENDER' or party[1] != 'RECEIVER':
+            ctx_count('interchanges-of-other-parties')
+        segs.append(('ISA', RE.isa_elements(isa, icvn, sender=party[0], receiver=party[1])))
         ngs = 0
         for _ in range(rng.randint(0, 3)):
             gs = rng.choice(CTL['gs'])
